@@ -29,11 +29,26 @@ def run(chk):
         stats(core.e1_flow(chk, 'scen_tee', 'tee', {'C10'}, gen, 1200, keyfn=keyfn, corpus=corpus, escalate_n=1500))
     else:
         # batches keep the memory of the recorded traces bounded
-        for b in range(20):
+        for b in range(12):
             stats(core.e1_flow(chk, 'scen_tee', 'tee', {'C10'}, gen, 3000, keyfn=keyfn,
                                corpus=corpus if b == 0 else None, escalate_n=3000))
             if chk.violations or chk.corr_breaks:
                 break
+    if chk.corr_breaks:
+        # recogniser: do the traces the repaired-code model rejects fit the model of the PINNED code
+        # (lean/MpsVerif/Legacy/Tee.lean, where F8/F9/F10 are kernel-checked to violate C10)?
+        sample = [b for b in chk.corr_breaks if b.get('events')][:300]
+        lines = []
+        for k, b in enumerate(sample):
+            c = b['case']
+            lines.append(f'case {k} forks={c["nforks"]} bs={c["bs"]} len={c["n"]} fail={0 if c["src"] == "clean" else 1}')
+            lines += ['e ' + ' '.join(str(x) for x in e) for e in b['events']]
+            lines.append('end partial=1')
+        ok = sum(1 for l in core.run_driver('tee-legacy', lines) if l.startswith('ok'))
+        chk.notes.append(f'legacy recogniser: {ok} of {len(sample)} traces rejected by the model of the repaired code are '
+                         f'runs of the model of the pinned code (Legacy/Tee.lean: F8_wedge, F9_lock_leaked, '
+                         f'F10_endings_differ)' + (' -> the implementation behaves like the unrepaired tee' if sample and ok == len(sample) else ''))
+        print(f'[C10] {chk.notes[-1]}')
     chk.cov['distribution'] = dict(
         model_actions_exercised=dict(sorted(kinds.items())), timed_out_acquires=spins,
         max_lookahead_relative_to_buffer_size=dict(sorted(ahead.items())))
